@@ -1685,6 +1685,25 @@ class CodeGenerator(NodeVisitor):
 
     def visit_AssignBlock(self, node: nodes.AssignBlock, frame: Frame) -> None:
         self.push_assign_tracking()
+
+        # Like visit_Assign, ``a.b`` is only a valid target if ``a`` is a
+        # Namespace object.
+        seen_refs: set[str] = set()
+
+        for nsref in (node.target, *node.target.find_all(nodes.NSRef)):
+            if not isinstance(nsref, nodes.NSRef) or nsref.name in seen_refs:
+                continue
+
+            seen_refs.add(nsref.name)
+            ref = frame.symbols.ref(nsref.name)
+            self.writeline(f"if not isinstance({ref}, Namespace):")
+            self.indent()
+            self.writeline(
+                "raise TemplateRuntimeError"
+                '("cannot assign attribute on non-namespace object")'
+            )
+            self.outdent()
+
         block_frame = frame.inner()
         # This is a special case.  Since a set block always captures we
         # will disable output checks.  This way one can use set blocks
